@@ -1,0 +1,59 @@
+//go:build verif
+
+// Contracts for package telnet, checked by /verif/govc. This file contains no
+// code: with the verif tag off it is not compiled at all, with it on it adds
+// only comments.
+package telnet
+
+/*@
+# ---------------------------------------------------------------------------
+# C15: login hands over a clean stream and honours the dial deadline
+#   gReader   the buffered reader the login lines are read through
+#   gArmed    a connection deadline is currently set
+# ---------------------------------------------------------------------------
+ghost var gReader *bufio.Reader
+ghost var gAsked bool
+ghost var gHasDeadline bool
+ghost var gDeadline time.Time
+ghost var gArmed bool
+ghost var gFirstLine string
+ghost var gLines int
+
+func telnet.DialContext(ctx, addr, mycall, password) (c, err)
+  props C15
+  requires ctx: ctx != nil
+  call bufio.NewReader set gReader := $r0
+  call context.Context.Deadline set gAsked := true
+  call context.Context.Deadline set gHasDeadline := $r1
+  call context.Context.Deadline set gDeadline := $r0
+  call net.Conn.SetDeadline requires arm-or-clear: iszero($1) || (gHasDeadline && same($1, gDeadline))
+  call net.Conn.SetDeadline set gArmed := !iszero($1)
+  call net.Conn.SetReadDeadline requires never: false
+  call net.Conn.SetWriteDeadline requires never: false
+  call bufio.(*Reader).ReadString requires deadline-armed: gAsked && (gHasDeadline ==> gArmed)
+  call bufio.(*Reader).ReadString requires login-reader: $0 == gReader && $1 == '\r'
+  call fmt.Fprintf#0 requires callsign-line: $1 == "%s\r" && len($2) == 1 && same(unbox($2[0]), mycall)
+  call fmt.Fprintf#1 requires password-line: $1 == "%s\r" && len($2) == 1 && same(unbox($2[0]), password)
+  ensures result: (err == nil) <==> (c != nil)
+  ensures no-stranded-bytes: err == nil ==> typeis(c, "*Conn") && as(c, "*Conn").reader == gReader && gReader != nil
+  ensures deadline-cleared: err == nil ==> !gArmed
+
+func telnet.(listener).Accept(ln) (c, err)
+  props C15
+  requires listener: ln.Listener != nil
+  call bufio.NewReader set gReader := $r0
+  call bufio.(*Reader).ReadString#0 set gFirstLine := $r0
+  call bufio.(*Reader).ReadString requires login-reader: $0 == gReader && $1 == '\r'
+  call fmt.Fprintf#0 requires callsign-prompt: $1 == "Callsign :\r"
+  call fmt.Fprintf#1 requires password-prompt: $1 == "Password :\r"
+  ensures no-stranded-bytes: err == nil && typeis(c, "*Conn") ==> as(c, "*Conn").reader == gReader && gReader != nil
+  ensures remote-call: err == nil ==> typeis(c, "*Conn") && same(as(c, "*Conn").remoteCall, strings.TrimSpace(gFirstLine))
+
+# reads go through the login reader
+func telnet.(*Conn).Read(conn, p) (n, err)
+  props C15
+  requires wellformed: conn.reader != nil || conn.Conn != nil
+  call net.Conn.Read requires only-without-reader: conn.reader == nil
+  call bufio.(*Reader).Read requires login-reader: $0 == conn.reader
+  forbid net. except net.Conn.Read
+@*/
